@@ -171,17 +171,46 @@ Proof.
   split; [destruct c, d; cbn in *; congruence|exact H4].
 Qed.
 
+(* ---------- any layout: prefix-free, non-empty component streams make the name stream injective ---------- *)
+Section Layout.
+  Variable lay : comp -> bytes.          (* what HashInto feeds for one component, whatever the layout *)
+  Variable P : comp -> Prop.             (* the components considered *)
+  Definition layout_prefix_free : Prop := forall c d r, P c -> P d -> lay d = lay c ++ r -> c = d.
+  Definition layout_nonempty : Prop := forall c, P c -> lay c <> [].
+
+  Theorem prefix_free_components_injective_names :
+    layout_prefix_free -> layout_nonempty ->
+    forall a b, Forall P a -> Forall P b -> concat (map lay a) = concat (map lay b) -> a = b.
+  Proof.
+    intros Hpf Hne. induction a as [|c a IH]; intros [|d b] Ha Hb H; cbn [map concat] in H.
+    - reflexivity.
+    - exfalso. inversion Hb; subst. symmetry in H. apply app_eq_nil in H as [H _]. eapply Hne; eauto.
+    - exfalso. inversion Ha; subst. apply app_eq_nil in H as [H _]. eapply Hne; eauto.
+    - inversion Ha; subst. inversion Hb; subst.
+      assert (c = d).
+      { apply app_eq_app in H as [l [[H1 _]|[H1 _]]].
+        - symmetry. eapply Hpf; [| |exact H1]; assumption.
+        - eapply Hpf; [| |exact H1]; assumption. }
+      subst d. apply app_inv_head in H. f_equal. apply IH; assumption.
+  Qed.
+End Layout.
+
+(* the modelled layout (type, length, value) is such a layout ... *)
+Lemma comp_hash_input_layout_ok :
+  layout_prefix_free comp_hash_input comp_wf /\ layout_nonempty comp_hash_input comp_wf.
+Proof.
+  split.
+  - intros c d r Hc Hd H. assert (H' : comp_hash_input c ++ r = comp_hash_input d ++ []) by (rewrite app_nil_r; congruence).
+    apply comp_hash_input_prefix_free in H' as [E _]; assumption.
+  - intros c _. unfold comp_hash_input. cbn [be app]. discriminate.
+Qed.
+
 (* ... so different well-formed names never feed the same bytes to the hasher *)
-Theorem name_hash_input_inj a : forall b, Forall comp_wf a -> Forall comp_wf b ->
+Theorem name_hash_input_inj a b : Forall comp_wf a -> Forall comp_wf b ->
   name_hash_input a = name_hash_input b -> a = b.
 Proof.
-  unfold name_hash_input. induction a as [|c a IH]; intros [|d b] Ha Hb H; cbn [map concat] in H.
-  - reflexivity.
-  - exfalso. unfold comp_hash_input in H. cbn [be app] in H. discriminate.
-  - exfalso. unfold comp_hash_input in H. cbn [be app] in H. discriminate.
-  - inversion Ha; subst. inversion Hb; subst.
-    apply comp_hash_input_prefix_free in H as [-> H]; [|assumption|assumption].
-    f_equal. apply IH; assumption.
+  destruct comp_hash_input_layout_ok as [H1 H2].
+  exact (prefix_free_components_injective_names comp_hash_input comp_wf H1 H2 a b).
 Qed.
 
 (* Without the length (the code before the fix) component boundaries were not delimited: two different well-formed
